@@ -18,10 +18,10 @@ git apply $OUT/patch.diff || { echo "PATCH DOES NOT APPLY" >> $LOG; exit 3; }
 cargo test --workspace --offline --no-fail-fast 2>&1 | grep -E "^test result|FAILED|panicked|error(\[|:)" >> $LOG
 echo "== (2) change + demo: demonstration must fail" >> $LOG
 git apply $OUT/demo.diff || { echo "DEMO DOES NOT APPLY" >> $LOG; exit 4; }
-( eval "$DEMO" ) 2>&1 | grep -E "^test result|FAILED|panicked|error(\[|:)|^test .* \.\.\. " | head -20 >> $LOG
+( eval "$DEMO" ) 2>&1 | grep -E "^test result|^test .* \.\.\. |error(\[|:)" | head -40 >> $LOG
 echo "== (3) demo only: demonstration must pass" >> $LOG
 git apply -R $OUT/patch.diff || { echo "PATCH DOES NOT REVERT" >> $LOG; exit 5; }
-( eval "$DEMO" ) 2>&1 | grep -E "^test result|FAILED|panicked|error(\[|:)|^test .* \.\.\. " | head -20 >> $LOG
+( eval "$DEMO" ) 2>&1 | grep -E "^test result|^test .* \.\.\. |error(\[|:)" | head -40 >> $LOG
 git apply $OUT/patch.diff
 echo "== done" >> $LOG
 cat $LOG
